@@ -11,7 +11,7 @@ TARGETS = {
     "h_safeint": lambda: build("h_safeint", [], "asan", harness_srcs=["h_safeint.cc"]),
     "h_drv": lambda: build("h_drv", LIBMP_SRCS, "plain", harness_srcs=DRV_SRCS),
     # the same driver under ASan+UBSan (memory errors on the driver paths: names files, suffix output, ...)
-    "h_drv_asan": lambda: build("h_drv_asan", LIBMP_SRCS, "asan", harness_srcs=DRV_SRCS),
+    "h_drv_asan": lambda: build("h_drv_asan", LIBMP_SRCS, "asan-novptr", harness_srcs=DRV_SRCS),
 }
 
 _here = os.path.dirname(os.path.abspath(__file__))
